@@ -168,6 +168,25 @@ Definition impl_recheck : bool := true.
 Definition after_kill (c : kcfg) (e : Z * bool) : bool := kill_passed c (fst e).
 Definition count_after_kill (c : kcfg) (l : list (Z * bool)) : Z := len (filter (after_kill c) l).
 
+(* ------------------------------------------------------------------ Profile swap (listen) *)
+(* the timing values a client Session runs with *)
+Record settings := mkS { s_sleep : Z; s_jitter : Z; s_kill : option Z; s_work : option rule }.
+(* what the new Profile answers: Sleep() (<= 0: not set), Jitter() (an int8; -1: not set),
+   KillDate() (None: ok = false; Some None: ok with the zero time; Some (Some k)),
+   WorkHours() (None: nil) *)
+Record pvals := mkP { p_sleep : Z; p_jitter : Z; p_kill : option (option Z); p_work : option rule }.
+
+(* the settings update of the `s.swap != nil` block of listen *)
+Definition swap_settings (old : settings) (p : pvals) : settings :=
+  mkS (if 0 <? p_sleep p then p_sleep p else s_sleep old)
+      (if (0 <=? p_jitter p) && (p_jitter p <=? 100) then u8 (p_jitter p) else s_jitter old)
+      (match p_kill p with Some k => k | None => s_kill old end)
+      (match p_work p with Some w => if empty w then None else Some w | None => s_work old end).
+
+(* the delay the next wait() computes with the settings in force *)
+Definition delay_with (st : settings) (gate d sign : Z) : Z :=
+  jitter_delay (s_sleep st) (s_jitter st) gate d sign.
+
 (* ------------------------------------------------------------------ correspondence cases *)
 (* observations are records, not tuples: they elaborate much faster in the generated case files *)
 Record wobs := mkW { wo_wd : Z; wo_ns : Z; wo_res : Z }.            (* weekday, ns of day, Work() observed *)
@@ -180,7 +199,10 @@ Inductive case :=
 | CJit (sleep jitter : Z) (obs : list jobs)
 | CJitN (sleep n : Z)                                   (* the range wait() passed to Int63n *)
 | CWait (c : kcfg) (dl now : Z) (closing : bool) (now' : Z) (closing' : bool)   (* one wait() *)
-| CKill (c : kcfg) (t0 : Z) (script : list item) (obs : list kev).
+| CKill (c : kcfg) (t0 : Z) (script : list item) (obs : list kev)
+(* a Profile swap in the real listen loop: settings before, the Profile's answers, settings
+   observed after, the draws of the next wait() and the delay it computed *)
+| CSwap (old : settings) (p : pvals) (obs : settings) (gate d sign delay : Z).
 
 Definition ev_eqb (a : Z * bool) (b : kev) : bool := (fst a =? ke_t b) && Bool.eqb (snd a) (ke_notice b).
 Fixpoint evs_eqb (a : list (Z * bool)) (b : list kev) : bool :=
@@ -189,6 +211,15 @@ Fixpoint evs_eqb (a : list (Z * bool)) (b : list kev) : bool :=
   | x :: a', y :: b' => ev_eqb x y && evs_eqb a' b'
   | _, _ => false
   end.
+
+Definition oz_eqb (a b : option Z) : bool :=
+  match a, b with Some x, Some y => x =? y | None, None => true | _, _ => false end.
+Definition rule_eqb (a b : rule) : bool :=
+  (r_days a =? r_days b) && (r_sh a =? r_sh b) && (r_sm a =? r_sm b) && (r_eh a =? r_eh b) && (r_em a =? r_em b).
+Definition orule_eqb (a b : option rule) : bool :=
+  match a, b with Some x, Some y => rule_eqb x y | None, None => true | _, _ => false end.
+Definition settings_eqb (a b : settings) : bool :=
+  (s_sleep a =? s_sleep b) && (s_jitter a =? s_jitter b) && oz_eqb (s_kill a) (s_kill b) && orule_eqb (s_work a) (s_work b).
 
 Definition check (c : case) : bool :=
   match c with
@@ -201,4 +232,6 @@ Definition check (c : case) : bool :=
   | CWait c dl now cl now' cl' =>
       let '(n2, c2) := wait_step impl_recheck c dl now cl in (n2 =? now') && Bool.eqb c2 cl'
   | CKill c t0 sc obs => evs_eqb (client impl_recheck c sc t0) obs
+  | CSwap o p obs g d sg dl =>
+      settings_eqb (swap_settings o p) obs && (delay_with (swap_settings o p) g d sg =? dl)
   end.
